@@ -67,7 +67,7 @@ TStopCall ==
 
 TLastCommit == IsEvent("LastCommit") /\ (IF sub = "lastcommit" THEN LastCommit ELSE RebalanceCommit) /\ Same
 TLeave == IsEvent("Leave") /\ Leave /\ Same
-TFlush == IsEvent("Flush") /\ Flush /\ Same
+TFlush == IsEvent("Flush") /\ (IF sub = "flush" THEN Flush ELSE UNCHANGED vars) /\ Same
 
 \* a component's close() returned: it is the component whose turn it is, it returned normally, and the measured
 \* state shows none of its tasks any more
@@ -85,7 +85,8 @@ TCloseEnd ==
 TCloseBegin ==
   /\ IsEvent("CloseStep") /\ Ev.phase = "begin"
   /\ phase = "closing" /\ CompOf(Ev.comp) = Cur
-  /\ UNCHANGED vars /\ Same
+  /\ IF sub = "flush" THEN FlushSkipped ELSE UNCHANGED vars     \* Sender.close entered without waiting for the flush
+  /\ Same
 
 \* stop() returned: every component was closed, no exception, within the bound
 TStopReturn ==
@@ -99,7 +100,7 @@ TStopReturn ==
 TSettled ==
   /\ IsEvent("Settled") /\ phase = "stopped"
   /\ live' = Measured(Ev) /\ timers' = Ev.timers /\ conns' = Ev.conns
-  /\ viol' = IF (\E c \in CompSet : Measured(Ev)[c] # 0) \/ Ev.counts.other # 0 THEN Note("NothingLeft:task")
+  /\ viol' = IF (\E c \in CompSet : Measured(Ev)[c] # 0) \/ Ev.counts.other # 0 \/ Ev.counts.accum # 0 THEN Note("NothingLeft:task")
              ELSE IF Ev.timers # 0 THEN Note("NothingLeft:timer")
              ELSE IF Ev.conns # 0 THEN Note("NothingLeft:connection") ELSE viol
   /\ UNCHANGED <<phase, step, sub, joined, coordOk, left, reachAtLeave, raised, waits, inBackoff, rebDone, hasAssign, sawLeave, reachStop, boundMs>>
@@ -123,7 +124,7 @@ TEnd ==
   /\ IsEvent("End") /\ phase = "stopped"
   /\ (Kind = "consumer" /\ joined /\ ~Static /\ reachStop) => sawLeave
   /\ Static => ~sawLeave
-  /\ Ev.counts.other = 0 /\ Ev.timers = 0 /\ Ev.conns = 0 /\ \A c \in CompSet : Measured(Ev)[c] = 0
+  /\ Ev.counts.other = 0 /\ Ev.counts.accum = 0 /\ Ev.timers = 0 /\ Ev.conns = 0 /\ \A c \in CompSet : Measured(Ev)[c] = 0
   /\ UNCHANGED vars /\ Same
 
 TraceNext ==
